@@ -740,6 +740,28 @@ func (e *SpecEnv) callSpec(n SCall) (SVal, error) {
 			}
 		}
 		return SVal{}, fmt.Errorf("sentinel %s not found", tn.V)
+	case "global": // global("pkg.Name"): the current value of a package-level variable of any loaded package
+		tn, ok := n.Args[0].(SStrLit)
+		if !ok {
+			return SVal{}, fmt.Errorf("global needs a string")
+		}
+		dot := strings.LastIndex(tn.V, ".")
+		if dot < 0 {
+			return SVal{}, fmt.Errorf("global(\"pkg.Name\")")
+		}
+		for _, p := range u.eng.prog.AllPackages() {
+			if p.Pkg.Name() == tn.V[:dot] || strings.HasSuffix(p.Pkg.Path(), tn.V[:dot]) {
+				if g, ok := p.Members[tn.V[dot+1:]].(*ssa.Global); ok {
+					if v, ok := u.globalConst(g, e.st); ok {
+						return SVal{V: v, T: g.Type().(*types.Pointer).Elem()}, nil
+					}
+					if pv, ok := u.globalPtr(g).(PtrV); ok {
+						return SVal{V: u.loadNoAssume(e.st, pv), T: g.Type().(*types.Pointer).Elem()}, nil
+					}
+				}
+			}
+		}
+		return SVal{}, fmt.Errorf("global %s not found", tn.V)
 	case "mapdom": // mapdom(m): the key set of a map as an SMT set
 		v, err := e.eval(n.Args[0])
 		if err != nil {
@@ -795,6 +817,16 @@ func (e *SpecEnv) callSpec(n SCall) (SVal, error) {
 			}
 		}
 		return SVal{}, fmt.Errorf("elemsof: no scalar field %q", want)
+	case "arrof": // arrof(s): the identity of the backing array of a slice (0 for a nil slice)
+		v, err := e.eval(n.Args[0])
+		if err != nil {
+			return SVal{}, err
+		}
+		sv, ok := v.V.(SliceV)
+		if !ok {
+			return SVal{}, fmt.Errorf("arrof of %T", v.V)
+		}
+		return SVal{V: Scalar{sv.Arr}}, nil
 	case "offof":
 		v, err := e.eval(n.Args[0])
 		if err != nil {
